@@ -1,6 +1,7 @@
 pub mod ev;
 pub mod faulty;
 pub mod hist;
+pub mod inp;
 pub mod sched;
 pub mod world;
 
